@@ -236,7 +236,21 @@ func registerReflect(e *Engine) {
 			return one(c.St, NilIface())
 		}
 		if !i.Nil.IsFalse() {
-			unsupported("reflect.TypeOf on maybe-nil interface at %s", c.Site)
+			var outs []Outcome
+			t, f := e.branch(c.St, i.Nil)
+			if t {
+				s2 := c.St
+				if f {
+					s2 = c.St.Fork()
+				}
+				s2.Assume(i.Nil)
+				outs = append(outs, Outcome{St: s2, Ret: NilIface()})
+			}
+			if f {
+				c.St.Assume(Not(i.Nil))
+				outs = append(outs, Outcome{St: c.St, Ret: e.rtypeIface(i.Dyn)})
+			}
+			return outs
 		}
 		return one(c.St, e.rtypeIface(i.Dyn))
 	}
@@ -246,7 +260,21 @@ func registerReflect(e *Engine) {
 			return one(c.St, mkRVal(nil))
 		}
 		if !i.Nil.IsFalse() {
-			unsupported("reflect.ValueOf on maybe-nil interface at %s", c.Site)
+			var outs []Outcome
+			t, f := e.branch(c.St, i.Nil)
+			if t {
+				s2 := c.St
+				if f {
+					s2 = c.St.Fork()
+				}
+				s2.Assume(i.Nil)
+				outs = append(outs, Outcome{St: s2, Ret: mkRVal(nil)})
+			}
+			if f {
+				c.St.Assume(Not(i.Nil))
+				outs = append(outs, Outcome{St: c.St, Ret: mkRVal(&RVal{Typ: i.Dyn, Val: i.Val})})
+			}
+			return outs
 		}
 		return one(c.St, mkRVal(&RVal{Typ: i.Dyn, Val: i.Val}))
 	}
